@@ -9,8 +9,8 @@ T = pg.typing
 MISSING = pg.MISSING_VALUE
 
 TIERS = {
-    'quick': dict(shards=8, cases=18, family=7, strangers=3, values=40, envelopes=2),
-    'thorough': dict(shards=16, cases=330, family=8, strangers=4, values=48, envelopes=2),
+    'quick': dict(shards=8, cases=18, family=7, strangers=3, values=40, envelopes=2, cross=12),
+    'thorough': dict(shards=16, cases=330, family=8, strangers=4, values=48, envelopes=2, cross=16),
 }
 RULE = ('case = a pool of value specs: one generated spec (Bool/Int/Float/Str/Enum/List/'
         'Tuple fixed+variable/Dict const+dynamic keys/Object/Union/Any, ranges, sizes, '
@@ -22,7 +22,8 @@ RULE = ('case = a pool of value specs: one generated spec (Bool/Int/Float/Str/En
         'by A; C=copy(A).extend(B): every value C accepts must be accepted by B on the shared '
         'fields, B.is_compatible(C), C accepts its own default. Candidate values are derived '
         'from the parameters of both specs (each bound and +-1, each size +-1, enum members '
-        'and a non-member, defaults, None, other types, partial / over-full dicts); '
+        'and a non-member, defaults, None, other types, partial / over-full dicts; plus `cross` '
+        'containers built around the boundary values of the nested specs of both); '
         'acceptance is always decided by the real apply on a deep copy. Histories: about half '
         'of the pools carry idempotent, self-recording user transforms (identity, list/tuple/'
         'dict conversion, sorting, a length validator) on List/Tuple/Dict/Object/Any nodes; a '
@@ -628,7 +629,8 @@ def compat_law(ctx, rng, da, db, a, b, state):
     except Exception:  # pylint: disable=broad-except
       again = False
     return '' if again else history_prefix(hist)
-  for v in S.candidates(rng, [b, a], ctx.params['values']):
+  for v in (S.candidates(rng, [b, a], ctx.params['values'])
+            + S.cross_values(rng, [b, a], ctx.params.get('cross', 12))):
     okb, _, seen_b = S.accepts_tracked(b, v)
     if not okb:
       continue
@@ -978,7 +980,8 @@ def extend_law(ctx, rng, da, db, a, base, state):
       return True
   fired = set()
   checked = 0
-  for v in S.candidates(rng, [ext, base, a], ctx.params['values']):
+  for v in (S.candidates(rng, [ext, base, a], ctx.params['values'])
+            + S.cross_values(rng, [ext, base, a], ctx.params.get('cross', 12))):
     okc, _, seen_c = S.accepts_tracked(ext, v)
     if not okc:
       continue
